@@ -16,7 +16,7 @@ from strengths import kinetics as K
 from strengths.coarsegrain import grid_to_graph
 
 PROPERTY = "C15"
-RULE = ("geometry: exhaustive over all grids w,h,d in 1..4 x 8 reflecting/periodic combinations (512 "
+RULE = ("geometry: exhaustive over all grids w,h,d in 1..4 (thorough: 1..5) x 8 reflecting/periodic combinations (512 / 1000 "
         "grids): every cell (index <-> coordinates bijection with index = z*w*h + y*w + x, five position "
         "forms), every out-of-grid linear index in [-2n, 3n] and every coordinate triple with one "
         "component out of range must raise, get_neighbors (as a set of distinct cells) and are_neighbors "
@@ -32,7 +32,7 @@ ASSUMPTIONS = ["reference geometry written in this file from the statement (inde
                "entries of get_neighbors equal to the cell itself (periodic axis of length 1) are ignored: the "
                "property speaks of distinct cells; multiplicities are checked where they matter physically "
                "(engine and kinetics facets)"]
-EXHAUSTIVE_PART = "facets 'geometry' and 'engine_neighbours': all 512 grids with w,h,d in 1..4 x 8 boundary combinations, all cells, all ordered pairs"
+EXHAUSTIVE_PART = "facets 'geometry' and 'engine_neighbours': all 512 grids with w,h,d in 1..4 (thorough tier: all 1000 grids with w,h,d in 1..5) x 8 boundary combinations, all cells, all ordered pairs"
 
 
 class Coord:
@@ -76,7 +76,8 @@ def grid_nontrivial(w, h, d, per):
 
 
 def enum_grids(ctx):
-    for w, h, d in itertools.product(range(1, 5), repeat=3):
+    top = 6 if ctx.tier == "thorough" else 5
+    for w, h, d in itertools.product(range(1, top), repeat=3):
         for per in itertools.product([False, True], repeat=3):
             yield {"w": w, "h": h, "d": d, "per": list(per)}
 
